@@ -137,6 +137,8 @@ def run(res, tier, seed):
                     cases.append((ep, list(ts), list(vals)))
     if tier == "quick":
         cases = rng.sample(cases, 5000) + [c for c in cases if len(c[1]) <= 1]
+    offs = [0, -3 * U2, -1000 * U2]
+    cases = [([(a + offs[n % 3], b + offs[n % 3]) for a, b in ep], [t + offs[n % 3] for t in ts], vals) for n, (ep, ts, vals) in enumerate(cases)]
     lines = []
     for ep, ts, vals in cases:
         for m in METHODS:
